@@ -1,4 +1,5 @@
 import Comdex.Lemmas.LendRates
+import Comdex.Lemmas.Accrual
 /-!
 # C18 — accrual laws (part a: x/lend, pure 18-digit fixed point)
 -/
@@ -181,4 +182,129 @@ theorem stable_two_step_le_one_step_plus_rounding (n : Int) (r : Dec) (s t : Int
   apply int_aux1
   linarith
 
+/-! # part b: x/rewards `CalculationOfRewards` (vault stability fee, locker savings) — floating point
+
+Everything except `math.Pow` is modelled exactly (`Model/Accrual.lean`); `math.Pow` is the field `pow` of
+`FloatOps`, whose other fields are the hypotheses the theorems use. PARTIAL: the hypotheses are tested against the
+real `math.Pow` by the harness, not proved. -/
+section floating
+open Comdex.Accrual
+
+/-- on the success path `calcRewards` returns `interest` -/
+theorem calcRewards_ok (ops : FloatOps) (n : Int) (lsr : Dec) (s : Int) (d : Dec)
+    (h : calcRewards n lsr s (some (ops.pow (xF lsr) (yF s))) = .ok d) : d = interest ops n lsr s := by
+  unfold calcRewards at h
+  split at h
+  · exact absurd h (by simp)
+  · split at h
+    · exact absurd h (by simp)
+    · simp only [] at h
+      split at h
+      · exact absurd h (by simp)
+      · split at h
+        · injection h with h; exact h.symm
+        · exact absurd h (by simp)
+
+/-- the hypotheses are consistent: a (trivial) power function satisfying all of them -/
+theorem hypotheses_consistent : ∃ ops : FloatOps, PowMonoTime ops ∧ PowMonoRate ops := by
+  refine ⟨{ pow := fun _ _ => (U : Int), E := 1, E_pos := by decide,
+            pow_ge_one := fun _ _ _ _ => le_refl _, pow_zero := fun _ _ => rfl,
+            pow_submult := fun _ _ _ _ _ _ => ?_ }, fun _ _ _ _ _ _ => le_refl _, fun _ _ _ _ _ _ => le_refl _⟩
+  have h : (0 : Int) ≤ (U : Int) * (U : Int) := Int.mul_nonneg (Int.natCast_nonneg _) (Int.natCast_nonneg _)
+  show (U : Int) * (U : Int) * ((1 : Nat) : Int) ≤ (U : Int) * (U : Int) * (((1 : Nat) : Int) + 1)
+  exact Int.mul_le_mul_of_nonneg_left (by omega) h
+
+/-- **Never negative.** -/
+theorem interest_nonneg (ops : FloatOps) (n : Int) (lsr : Dec) (s : Int)
+    (hn : 0 ≤ n) (hl : 0 ≤ lsr) (hs : 0 ≤ s) : 0 ≤ interest ops n lsr s :=
+  interestOfPow_nonneg _ _ (ops.pow_ge_one lsr s hl hs) (aF_nonneg n hn)
+
+/-- **Zero when no time has elapsed.** -/
+theorem interest_zero_at_zero_time (ops : FloatOps) (n : Int) (lsr : Dec) (hl : 0 ≤ lsr) :
+    interest ops n lsr 0 = 0 := by
+  unfold interest; rw [ops.pow_zero lsr hl]; exact interestOfPow_one _
+
+/-- **Never decreases when the principal increases** (needs nothing of the power function beyond `≥ 1`), and,
+given that the power function is monotone on the reachable grid, when **the elapsed time or the rate increases**. -/
+theorem interest_mono (ops : FloatOps) (n n' : Int) (lsr lsr' : Dec) (s s' : Int)
+    (hn : 0 ≤ n) (hnn : n ≤ n') (hl : 0 ≤ lsr) (hs : 0 ≤ s) :
+    interest ops n lsr s ≤ interest ops n' lsr s ∧
+    (PowMonoTime ops → s ≤ s' → interest ops n lsr s ≤ interest ops n' lsr s') ∧
+    (PowMonoRate ops → lsr ≤ lsr' → interest ops n lsr s ≤ interest ops n' lsr' s) := by
+  have p0 := ops.pow_ge_one lsr s hl hs
+  have a0 := aF_nonneg n hn
+  have a1 := aF_mono n n' hn hnn
+  exact ⟨interestOfPow_mono _ _ _ _ p0 (le_refl _) a0 a1,
+         fun hm hss => interestOfPow_mono _ _ _ _ p0 (hm lsr s s' hl hs hss) a0 a1,
+         fun hm hll => interestOfPow_mono _ _ _ _ p0 (hm lsr lsr' s hl hll hs) a0 a1⟩
+
+/-- **Counterexample (time).** Go's `math.Pow` is NOT monotone on the reachable grid: for the rate
+`0.000000006824643518` it returns `0x3ff000001c654844` at 489142800 s (15.5 years) and `0x3ff000001c654843` one
+second later (reproduced on every run by the harness, corpus case 1). Everything after the power function
+being strictly monotone there, one more second of elapsed time yields LESS interest on a principal of 10¹⁸
+(105781979620.18… vs 105781979398.14…). -/
+theorem interest_mono_time_counterexample (ops : FloatOps)
+    (h1 : some (ops.pow (xF 6824643518) (yF 489142800)) = ofBits 4607182419276417092)
+    (h2 : some (ops.pow (xF 6824643518) (yF 489142801)) = ofBits 4607182419276417091) :
+    interest ops 1000000000000000000 6824643518 489142801 < interest ops 1000000000000000000 6824643518 489142800 ∧
+    ¬ PowMonoTime ops := by
+  have e1 : ofBits 4607182419276417092 = some (2 ^ 1074 + 476399684 * 2 ^ 1022) := by decide +kernel
+  have e2 : ofBits 4607182419276417091 = some (2 ^ 1074 + 476399683 * 2 ^ 1022) := by decide +kernel
+  rw [e1] at h1; rw [e2] at h2
+  injection h1 with h1; injection h2 with h2
+  constructor
+  · unfold interest; rw [h1, h2]; decide +kernel
+  · intro hm
+    have := hm 6824643518 489142800 489142801 (by decide) (by decide) (by decide)
+    rw [h1, h2] at this
+    exact absurd this (by decide +kernel)
+
+/-- **Counterexample (rate).** At half a year and one second `math.Pow` returns `0x3ffede12f2fd1069` for the
+base `1 + 2.721879042385945` and `0x3ffede12f2fd1068` for the base `1 + 2.7218790423859454` (corpus case 2):
+a higher rate yields less interest. -/
+theorem interest_mono_rate_counterexample (ops : FloatOps)
+    (h1 : some (ops.pow (xF 2721879042385945000) (yF 15778801)) = ofBits 4611367241441415273)
+    (h2 : some (ops.pow (xF 2721879042385945400) (yF 15778801)) = ofBits 4611367241441415272) :
+    interest ops 1000000000000000000 2721879042385945400 15778801
+      < interest ops 1000000000000000000 2721879042385945000 15778801 ∧
+    ¬ PowMonoRate ops := by
+  have e1 : ofBits 4611367241441415273 = some ((2 ^ 52 + 4184822641397865) * 2 ^ 1022) := by decide +kernel
+  have e2 : ofBits 4611367241441415272 = some ((2 ^ 52 + 4184822641397864) * 2 ^ 1022) := by decide +kernel
+  rw [e1] at h1; rw [e2] at h2
+  injection h1 with h1; injection h2 with h2
+  constructor
+  · unfold interest; rw [h1, h2]; decide +kernel
+  · intro hm
+    have := hm 2721879042385945000 2721879042385945400 15778801 (by decide) (by decide) (by decide)
+    rw [h1, h2] at this
+    exact absurd this (by decide +kernel)
+
+/-- **The tracker is never negative** and stays below one whole unit; what is paid is never negative. -/
+theorem tracker_never_negative (tr x : Dec) (ht : 0 ≤ tr) (hx : 0 ≤ x) :
+    0 ≤ (trackerStep tr x).1 ∧ 0 ≤ (trackerStep tr x).2 ∧ (trackerStep tr x).2 < Dec.one :=
+  let ⟨a, b, c, _⟩ := trackerStep_spec tr x (Int.add_nonneg ht hx); ⟨a, b, c⟩
+
+/-- **Whole units are paid, the fraction is carried**, over any sequence of accruals: what has been paid out in
+whole units plus what the tracker still holds is exactly what was accrued, and the tracker holds less than one
+unit — so the total paid is `⌊tracker₀ + Σ accrued⌋` whatever the number of steps. -/
+theorem whole_units_paid_fraction_carried (tr : Dec) (xs : List Dec) (ht : 0 ≤ tr) (hx : ∀ x ∈ xs, 0 ≤ x) :
+    0 ≤ (trackerRun tr xs).1 ∧ 0 ≤ (trackerRun tr xs).2 ∧
+    (xs ≠ [] → (trackerRun tr xs).2 < Dec.one) ∧
+    (trackerRun tr xs).1 * Dec.P + (trackerRun tr xs).2 = tr + xs.sum := by
+  induction xs generalizing tr with
+  | nil => simp [trackerRun, ht]
+  | cons x xs ih =>
+    have hx0 : 0 ≤ x := hx x (by simp)
+    obtain ⟨a, b, c, d⟩ := trackerStep_spec tr x (Int.add_nonneg ht hx0)
+    obtain ⟨a', b', c', d'⟩ := ih (trackerStep tr x).2 b (fun y hy => hx y (by simp [hy]))
+    simp only [trackerRun, List.sum_cons]
+    refine ⟨Int.add_nonneg a a', b', fun _ => ?_, ?_⟩
+    · cases xs with
+      | nil => simpa [trackerRun] using c
+      | cons y ys => exact c' (by simp)
+    · have : ((trackerStep tr x).1 + (trackerRun (trackerStep tr x).2 xs).1) * Dec.P
+          = (trackerStep tr x).1 * Dec.P + (trackerRun (trackerStep tr x).2 xs).1 * Dec.P := by ring
+      rw [this]; linarith
+
+end floating
 end Comdex.C18
